@@ -136,6 +136,20 @@ func wrapClassRule(p *Prog, r *Report, rule string, o wrapOpts) int {
 	for k, v := range o.Tolerated {
 		tolerated[k] = v
 	}
+	// a tolerance written for the per-file step of the cleaner holds for the whole package: the step may be
+	// merged into the loop that calls it (nothing else in that package looks contents up)
+	for k, v := range o.Tolerated {
+		if fi := p.Funcs[k]; fi != nil || !strings.Contains(k, "internal/usecase/cleaner.") {
+			continue
+		}
+		for _, fk := range fns {
+			if f2 := p.Funcs[fk]; f2 != nil && shortPath(f2.Pkg.PkgPath) == "internal/usecase/cleaner" {
+				if _, has := tolerated[fk]; !has {
+					tolerated[fk] = v
+				}
+			}
+		}
+	}
 	callers := map[string][]string{}
 	for caller, outs := range cg.Out {
 		for _, callee := range outs {
